@@ -374,6 +374,27 @@ def _keyed_detail(k, px, py, pa, nx, tx):
 DETAIL["c16_keyed"] = _keyed_detail
 CONDITIONS.append({"fn": "c16_keyed", "quick": 60, "thorough": 120, "sel_only": True})
 
+# ---- the shared corpus: a render that succeeds under a strict undefined type equals the render under the default type ----
+from harness import corpus as _corpus  # noqa: E402
+
+_CENVS = {k: _corpus.make_env(undefined=UNDEF[k]) for k in KINDS}
+
+
+def _corpus_check(w2, w1, leaf, d):
+    ts = {k: _corpus.template(e, w2, w1, leaf) for k, e in _CENVS.items()}
+    if ts["D"] is None:
+        return None
+    outs = {k: _corpus.outcome(lambda: ts[k].render(**_corpus.data(d))) for k in KINDS if ts[k] is not None}
+    bad = {k: v for k, v in outs.items() if k != "D" and v[0] == "ok" and v != outs["D"]}
+    if outs["D"][0] == "liquid" and outs["D"][1] == "UndefinedError":
+        bad["D"] = outs["D"]
+    return dict(bad, default=outs["D"]) if bad else None
+
+
+c16_corpus, _det = _corpus.mk_condition("c16_corpus", _corpus_check)
+DETAIL["c16_corpus"] = _det
+CONDITIONS.append({"fn": "c16_corpus", "quick": 90, "thorough": 200, "sel_only": True, "bounds": _corpus.BOUNDS})
+
 ASSUMPTIONS = [
     "templates are the concrete skeletons of harness/c16.py (FAMILIES); the four environments differ only in undefined=",
     "data = fixed nested structure minus the keys / sub-paths removed by the presence selectors; leaves: x in None|bool|int 0..9|str<=1, y/n ints 0..9, s str<=1 over {a}",
